@@ -62,10 +62,15 @@ foreign_id foreigner visible_flag invisible_flag go_live use_count used insert_t
 
 @st.composite
 def plain_ident(draw, min_len=1, max_len=9):
-    if draw(st.integers(0, 4)) == 0:
+    k = draw(st.integers(0, 24))
+    if k < 5:
         w = draw(st.sampled_from(REALISTIC_NAMES))
         if len(w) >= min_len:
             return safe_word(w)
+    if k == 24 and max_len >= 9:
+        # a long descriptive name (identifier length limits are the database's business, not the parser's)
+        a, b, c = draw(st.sampled_from(REALISTIC_NAMES)), draw(st.sampled_from(REALISTIC_NAMES)), draw(st.integers(0, 999))
+        return safe_word("%s_%s_%03d_total" % (a, b, c))
     first = draw(st.sampled_from(_LETTERS + _LETTERS.upper() + "_"))
     rest = draw(st.text(alphabet=_ALNUM, min_size=max(0, min_len - 1), max_size=max_len - 1))
     w = first + rest
